@@ -710,6 +710,9 @@ func genC20(r *Rand, p *Plan, tier string) {
 	if r.Chance(40) {
 		p.Scen.Ctl = append(p.Scen.Ctl, Ctl{Kind: "cancel", NotBefore: 5 + r.Intn(60)})
 	}
+	if r.Chance(30) {
+		p.Scen.Sibling = 1 + r.Intn(3)
+	}
 	p.Tape = r.Tape(1200)
 	p.MaxSteps = 1500
 }
